@@ -301,8 +301,26 @@ CAMLprim value vp_iter_destroy(value it) { struct mtbl_iter *p = PTR(it); mtbl_i
  * VP_FULL = complete write.  When the schedule is exhausted every call completes in full. */
 #define VP_FULL 0x7fffffff
 static int *vp_sched = NULL; static size_t vp_sched_len = 0, vp_sched_pos = 0; static long vp_write_calls = 0;
+/* errno as state: vp_entry_errno (if not 0) is what errno holds when the writer makes its first write(2) call - left
+ * behind by some earlier call; vp_success_errno (if not 0) is what a write that SUCCEEDS (in full, short, or with 0)
+ * leaves in errno - POSIX gives errno a meaning only after a failing call */
+static int vp_entry_errno = 0, vp_success_errno = 0;
 #undef write
+static ssize_t vp_write_inner(int fd, const void *buf, size_t n);
 ssize_t vp_write(int fd, const void *buf, size_t n)
+{
+	if (vp_write_calls == 0 && vp_entry_errno) errno = vp_entry_errno;
+	ssize_t r = vp_write_inner(fd, buf, n);
+	if (r >= 0 && vp_success_errno) errno = vp_success_errno;
+	return r;
+}
+CAMLprim value vp_set_write_errno(value entry, value success)
+{
+	vp_entry_errno = Long_val(entry) == 1 ? EINTR : Long_val(entry) == 2 ? EIO : 0;
+	vp_success_errno = Long_val(success) == 1 ? EINTR : Long_val(success) == 2 ? EIO : 0;
+	return Val_unit;
+}
+static ssize_t vp_write_inner(int fd, const void *buf, size_t n)
 {
 	vp_write_calls++;
 	if (vp_sched_pos < vp_sched_len) {
